@@ -1,4 +1,4 @@
 INIT OInit
 NEXT ONext
-INVARIANTS RunsAtMostOnce NoCommitAfterStopReturned ClosedExactlyOnce DistinctOutcomes EveryStopReturns StopsAtLabelBoundary
+INVARIANTS RunsAtMostOnce NoCommitAfterStopReturned ClosedExactlyOnce DistinctOutcomes EveryStopReturns NoInnerCommitAfterRunReturned StopsAtLabelBoundary
 CHECK_DEADLOCK FALSE
